@@ -18,7 +18,9 @@ pub mod c10;
 pub mod c09;
 #[cfg(feature = "c11")]
 pub mod c11;
-#[cfg(any(feature = "c02", feature = "c07"))]
+#[cfg(any(feature = "c02", feature = "c07", feature = "c03", feature = "c04", feature = "c05", feature = "c06", feature = "c08", feature = "c01", feature = "c13", feature = "c14", feature = "c15", feature = "c16"))]
 pub mod c02;
 #[cfg(feature = "c07")]
 pub mod c07;
+#[cfg(feature = "c03")]
+pub mod c03;
